@@ -29,6 +29,13 @@ const schemaG = `{"$schema":"http://json-schema.org/draft-07/schema#","$ref":"#/
  "GAlias":{"$ref":"#/definitions/Part"}
 }}`
 
+// an allOf composition with an inline object carrying an optional field and an inline enum
+const schemaI = `{"$schema":"http://json-schema.org/draft-07/schema#","$ref":"#/definitions/Ext","definitions":{
+ "Base":{"type":"object","properties":{"id":{"type":"string"}}},
+ "Ext":{"allOf":[{"$ref":"#/definitions/Base"},{"type":"object","properties":{"kind":{"type":"string","enum":["small","large"]},"note":{"type":"string"}}}]},
+ "Holder":{"type":"object","properties":{"e":{"$ref":"#/definitions/Ext"}}}
+}}`
+
 const openapiDoc = `{"openapi":"3.0.0","info":{"title":"t","version":"1"},"paths":{},"components":{"schemas":{
  "Root":{"type":"object","required":["pet"],"properties":{"pet":{"oneOf":[{"$ref":"#/components/schemas/Cat"},{"$ref":"#/components/schemas/Dog"}],"discriminator":{"propertyName":"type"}},"n":{"type":"integer","format":"int32","minimum":1},"labels":{"type":"object","additionalProperties":{"type":"string"}}}},
  "Cat":{"type":"object","required":["type"],"properties":{"type":{"type":"string","enum":["cat"]},"lives":{"type":"integer"}}},
@@ -81,7 +88,7 @@ options:
 
 func writeInputs(dir, repo string) {
 	files := map[string]string{
-		"in/a.json": schemaA, "in/b.json": schemaB, "in/g.json": schemaG, "in/api.json": openapiDoc,
+		"in/a.json": schemaA, "in/b.json": schemaB, "in/g.json": schemaG, "in/api.json": openapiDoc, "in/i.json": schemaI,
 		"passes/common.yaml": passes, "veneers/alpha.yaml": veneers,
 	}
 	for rel, content := range files {
